@@ -285,6 +285,11 @@ pub fn more() -> Vec<Entry> {
         w::<ark_curve25519::EdwardsAffine>("curve25519::EdwardsAffine", F, 1, 1),
         w::<ark_ed_on_bls12_381::SWAffine>("jubjub SWAffine (cofactor 8)", F, 1, 1),
         w::<ark_ec::pairing::PairingOutput<ark_mnt4_298::MNT4_298>>("PairingOutput<MNT4_298>", F, 1, 1),
+        w::<ark_ec::pairing::PairingOutput<ark_mnt6_298::MNT6_298>>("PairingOutput<MNT6_298>", F, 1, 1),
+        w::<ark_ec::pairing::PairingOutput<ark_bls12_377::Bls12_377>>("PairingOutput<Bls12_377>", F, 1, 1),
+        w::<ark_ec::pairing::PairingOutput<ark_bw6_761::BW6_761>>("PairingOutput<BW6_761>", F, 1, 1),
+        w::<ark_ec::pairing::PairingOutput<ark_bw6_767::BW6_767>>("PairingOutput<BW6_767>", F, 1, 1),
+        w::<ark_ec::pairing::PairingOutput<ark_cp6_782::CP6_782>>("PairingOutput<CP6_782>", F, 1, 1),
         // ark-poly's serializable types
         e::<DensePolynomial<Fr>>("poly DensePolynomial<Fr>", C18, 2, 8),
         e::<SparsePolynomial<Fr>>("poly SparsePolynomial<Fr>", C18, 2, 8),
